@@ -1,4 +1,12 @@
 /* second translation unit of h_aesfail.c: white-box access to crypto_aesctr.c's own dispatch variable */
+#ifdef HC_BLACKBOX
+/* black-box mode: nothing to reach into (every op of h_aesfail.c runs in a fresh forked process) */
+void aesfail_ctr_reset(void);
+void
+aesfail_ctr_reset(void)
+{
+}
+#else
 #include "crypto_aesctr.c"
 
 void
@@ -7,3 +15,4 @@ aesfail_ctr_reset(void)
 
 	hwaccel = HW_UNSET;	/* as in a fresh process */
 }
+#endif
